@@ -38,6 +38,18 @@ func cmdCrashChild(f hx.Flags, r *hx.Result) {
 	goroutines, calls, exitAfter := f.Int("goroutines", 1), f.Int("calls", 3), f.Int("exitafter", -1)
 	ack := os.NewFile(3, "ack")
 	log.RegisterTimeRotation("h", log.TimeRotation{Interval: time.Hour})
+	log.RegisterTimeRotation("sec", log.TimeRotation{Interval: time.Second})
+	if f.Str("rel", "") != "" { // a relative target directory, as in the default fileDir=./logs
+		if err := os.Chdir(dir); err != nil {
+			fmt.Fprintln(os.Stderr, "child chdir:", err)
+			os.Exit(7)
+		}
+		dir = "."
+	}
+	realRot := kind == "rolling" && f.Str("realrot", "") != ""
+	if realRot { // real one-second rotations with the shortest retention, in a zone far west of UTC
+		time.Local = time.FixedZone("WEST", -11*3600)
+	}
 	tag := log.RegisterTag("crash_tag")
 	cfg := sys.Cfg{}
 	switch kind {
@@ -51,6 +63,10 @@ func cmdCrashChild(f hx.Flags, r *hx.Result) {
 		cfg["appender.out.fileName"] = "c.log"
 		cfg["appender.out.rotation"] = "h"
 		cfg["appender.out.maxAge"] = "100"
+		if realRot {
+			cfg["appender.out.rotation"] = "sec"
+			cfg["appender.out.maxAge"] = "1"
+		}
 	default:
 		cfg["appender.out.type"] = "Console"
 	}
@@ -90,15 +106,26 @@ func cmdCrashChild(f hx.Flags, r *hx.Result) {
 			}
 		}
 	}
+	var acks int64
+	var mu sync.Mutex
+	ctx := context.Background()
+	// earlier configuration generations of the same process: Refresh, one acknowledged call, Destroy
+	for gen := 1; gen < f.Int("gens", 1); gen++ {
+		if err := log.Refresh(cfg.Map(nil)); err != nil {
+			fmt.Fprintln(os.Stderr, "child refresh:", err)
+			os.Exit(7)
+		}
+		id := int64(9000 + gen)
+		log.Info(ctx, tag, log.Int("id", id), log.String("pad", crashPad(id)), log.Int("end", id))
+		fmt.Fprintf(ack, "ack %d\n", id)
+		log.Destroy()
+	}
 	if err := log.Refresh(cfg.Map(nil)); err != nil {
 		fmt.Fprintln(os.Stderr, "child refresh:", err)
 		os.Exit(7)
 	}
 	rawEvery := f.Int("rawevery", 0)
-	var acks int64
-	var mu sync.Mutex
 	var wg sync.WaitGroup
-	ctx := context.Background()
 	for g := 1; g <= goroutines; g++ {
 		wg.Add(1)
 		go func(g int) {
@@ -123,6 +150,11 @@ func cmdCrashChild(f hx.Flags, r *hx.Result) {
 					os.Exit(0) // immediately, no Destroy, no deferred flush
 				}
 				mu.Unlock()
+				if realRot && i <= 2 {
+					// cross a second boundary after the first call (the second one rotates), then leave the
+					// retention scan launched by that rotation time to run
+					time.Sleep(map[int]time.Duration{1: 1100 * time.Millisecond, 2: 60 * time.Millisecond}[i])
+				}
 			}
 		}(g)
 	}
@@ -174,6 +206,15 @@ func cmdCrash(f hx.Flags, r *hx.Result) {
 			}
 			if kind == "rolling" && n%4 < 2 {
 				args = append(args, "--churn", "1")
+			}
+			if kind == "rolling" && n%4 >= 2 && n%8 < 6 && c.Calls >= 3 {
+				args = append(args, "--realrot", "1")
+			}
+			if kind != "console" && n%2 == 1 {
+				args = append(args, "--rel", "1")
+			}
+			if n%4 == 3 {
+				args = append(args, "--gens", "3")
 			}
 			twin := kind != "console" && c.Twin
 			if twin {
